@@ -98,17 +98,16 @@ Theorem C15_transform_is_fit_transform_partial :
 Proof. exact transform_is_fit_transform_api_partial. Qed.
 Print Assumptions C15_transform_is_fit_transform_partial.
 
-(* non-vacuity: the premises of C15_zero_covariance hold on a 6 x 4 matrix with two sensitive columns
-   given in decreasing order, and the output really differs from the input columns *)
+(* non-vacuity: the premises of C15_zero_covariance / C15_transform_is_fit_transform_partial hold on a
+   6 x 4 matrix with two sensitive columns given in decreasing order; the output really differs from the
+   input columns, has zero covariance with the sensitive columns, and the learned beta solves the normal
+   equations (closed boolean, evaluated by the kernel) *)
 Example C15_example :
-  let X := witness_X in
-  wf 6 X /\ (2 <= 6)%nat /\
-  exists Xuse Xs out, split [0;1;2;3]%Z [2;0]%Z X = Some (Xuse, Xs) /\
-     fit_transform [0;1;2;3]%Z [2;0]%Z 1 X = Some out /\ mat_eqb out Xuse = false /\
-     zero_cov_all out Xs = true /\
-     exists f, fit [0;1;2;3]%Z [2;0]%Z X = Some f /\ normal_eqs_hold (centre Xs) (f_beta f) Xuse = true.
-Proof.
-  split; [repeat constructor|]. split; [repeat constructor|]. do 3 eexists.
-  split; [vm_compute; reflexivity|]. split; [vm_compute; reflexivity|]. split; [vm_compute; reflexivity|].
-  split; [vm_compute; reflexivity|]. eexists. split; vm_compute; reflexivity.
-Qed.
+  wf 6 witness_X /\ length [0;1;2;3]%Z = length witness_X /\
+  match split [0;1;2;3]%Z [2;0]%Z witness_X, fit_transform [0;1;2;3]%Z [2;0]%Z 1 witness_X,
+        fit [0;1;2;3]%Z [2;0]%Z witness_X with
+  | Some (Xuse, Xs), Some out, Some f =>
+      (negb (mat_eqb out Xuse) && zero_cov_all out Xs && normal_eqs_hold (centre Xs) (f_beta f) Xuse)%bool
+  | _, _, _ => false
+  end = true.
+Proof. split; [repeat constructor|]. split; [reflexivity|]. vm_compute. reflexivity. Qed.
